@@ -497,28 +497,65 @@ def assign_target(st, tgt, val):
     raise Undecided('assignment target %s' % type(tgt).__name__)
 
 
-def check_frame(st, ref, cls, fname):
-    """Write to (ref, field) must be inside the function's modifies clause or hit a fresh object."""
-    if st.mod_targets is None:
+def _frame_ok(st, frame, ref, key, contents):
+    targets, threshold = frame
+    ok = [ref >= threshold]
+    for (kind, k, r) in targets:
+        if contents:
+            if kind == 'contents':
+                ok.append(ref == r)
+            elif kind == 'fresh':
+                ok.append(ref >= st.fn_alloc0)
+        else:
+            if kind == 'field' and k == key:
+                ok.append(ref == r)
+            elif kind == 'allfields':
+                ok.append(ref == r)
+            elif kind == 'anyfield' and k == key:
+                return None
+            elif kind == 'fresh':
+                ok.append(ref >= st.fn_alloc0)
+    return z3.Or(ok)
+
+
+def _check_write(st, ref, key, contents, label):
+    """A write must lie inside the function's frame (checked now) and inside the frame of every
+    enclosing loop whose head is reached again after the write (checked at the back-edge: a write
+    followed by break/return/raise never flows back into that loop's havoc)."""
+    if st.frames is None:
         return
+    g = _frame_ok(st, st.frames[0], ref, key, contents)
+    if g is not None:
+        st.prove(label, g, kind='frame')
+    for depth in range(1, len(st.frames)):
+        g = _frame_ok(st, st.frames[depth], ref, key, contents)
+        if g is not None:
+            st.pending_writes.append((depth, label + '/loop-frame', g, st.lineno))
+
+
+def check_frame(st, ref, cls, fname):
+    """Write to (ref, field) must be inside the modifies clause or hit a fresh object."""
     key, _ = st.field_key(cls, fname)
-    ok = [ref >= st.alloc0]
-    for (kind, k, r) in st.mod_targets:
-        if kind == 'field' and k == key:
-            ok.append(ref == r)
-        elif kind == 'allfields':
-            ok.append(ref == r)
-    st.prove('frame[%s]@%d' % (key, st.lineno), z3.Or(ok), kind='frame')
+    _check_write(st, ref, key, False, 'frame[%s]@%d' % (key, st.lineno))
 
 
 def check_frame_contents(st, ref):
-    if st.mod_targets is None:
-        return
-    ok = [ref >= st.alloc0]
-    for (kind, k, r) in st.mod_targets:
-        if kind == 'contents':
-            ok.append(ref == r)
-    st.prove('frame[contents]@%d' % st.lineno, z3.Or(ok), kind='frame')
+    _check_write(st, ref, None, True, 'frame[contents]@%d' % st.lineno)
+
+
+def loop_backedge(st, depth):
+    """Control flows back to the head of the loop at `depth`: its frame must cover the pending writes."""
+    keep = []
+    for (d, label, g, line) in st.pending_writes:
+        if d == depth:
+            st.prove(label, g, kind='frame', lineno=line)
+        elif d < depth:
+            keep.append((d, label, g, line))
+    st.pending_writes = keep
+
+
+def loop_exit(st, depth):
+    st.pending_writes = [w for w in st.pending_writes if w[0] < depth]
 
 
 def ex_assign(st, s):
